@@ -136,6 +136,31 @@ def run(P, C, tier):
             if esc:
                 det7 += " -- a row whose own content is unchanged (`node` is None: an id and no modified field, e.g. a parent named only to reach an already linked child) returns Ok before its sub-entities are validated: the children are written without any rights decision"
         C.ob("R7", "validate_entity_mutation:sub-entities-always-validated", ok7, where, det7)
+    # ---- R8: a room mutation only reaches the groups of that room
+    C.rule("R8", "a room's definition is changed only by its admins: the authorisation groups a room mutation may touch are the groups of THAT room, or brand-new rows. "
+                 "In validate_authorisation_mutation a group is registered in the candidate room (Room::add_auth) only when the mutation creates its row "
+                 "(no stored version: old_node is None); the id of an existing group of another room is refused (NotBelongsTo), otherwise an admin of room A "
+                 "re-signs and extends a group of room B")
+    try:
+        va = P.body("RoomAuthorisations::validate_authorisation_mutation")
+        C.saw(va)
+        adds = [bi for bi, t in va.calls_to(r"room::Room::add_auth$")]
+        C.floor("R8", "group registrations", len(adds), 1)
+        for n_, bi in enumerate(adds):
+            new_row = False
+            for s_, vals, term in va.guards(bi, expand_vars=True):
+                dv = mir.discr_variants(term, vals)
+                atom, truth = mir.cond_atoms(term, vals)
+                if dv and dv[1] == ["None"] and field_path(dv[0]).endswith(".old_node"):
+                    new_row = True
+                if atom[0] == "call" and re.search(r"Option.*::is_none$", atom[1]) and truth is True and atom[2] and field_path(atom[2][0]).endswith(".old_node"):
+                    new_row = True
+                if atom[0] == "call" and re.search(r"Option.*::is_some$", atom[1]) and truth is False and atom[2] and field_path(atom[2][0]).endswith(".old_node"):
+                    new_row = True
+            C.ob("R8", "group-registered-only-when-new#%d" % n_, new_row, va.loc(bi),
+                 "Room::add_auth is reached only when the authorisation row has no stored version (old_node is None): %s" % new_row)
+    except mir.MissingAnchor as e:
+        C.anchor_missing("R8", "validate_authorisation_mutation", e)
     # both rooms: validate_entity_mutation has a decision under the room inequality
     b = bodies.get("RoomAuthorisations::validate_entity_mutation")
     if b is not None:
